@@ -50,6 +50,9 @@ class Contract:
     # re-entrancy discipline for event emitters: clauses that must hold whenever the body calls self.emit() (the state a
     # listener observes); with any at_emit clause the unit also owes "no declared field of self is written after the emit"
     at_emit: list[str] = field(default_factory=list)
+    # callee name -> clauses owed at every call of that callee in this unit's own body; evaluated in the caller's state with
+    # the callee's parameter names bound to the actual arguments (what is passed on, stated where the data is known)
+    at_call: dict[str, list[str]] = field(default_factory=dict)
 
 
 @dataclass
